@@ -5,5 +5,5 @@ CONSTANTS
   Opts <- QOpts
   TotalUnits <- AllTotalUnits
   OneStep = TRUE
-INVARIANTS SignLaw WindowLaw DirectionLaw BalanceLaw MultipleLaw CompareLaw NearLaw TotalLaw 
+INVARIANTS SignLaw WindowLaw DirectionLaw BalanceLaw MultipleLaw CompareLaw NearLaw TotalLaw DateDiffLaw 
 CHECK_DEADLOCK FALSE
